@@ -202,6 +202,27 @@ MUTANTS = [
     ('C08', 'packer-reads-buffered-tail', PK,
      "                self._file = open(self._path, \"rb\", 0)\n                self._file.seek(0, 2)",
      "                self._file = open(self._path, \"rb\")\n                self._file.seek(0, 2)"),
+    ('C20', 'new-oid-without-lock', BS,
+     "        with self._lock:\n            last = self._oid\n            d = byte_ord(last[-1])",
+     "        if True:\n            last = self._oid\n            d = byte_ord(last[-1])"),
+    ('C20', 'store-does-not-raise-counter', FS,
+     "        with self._lock:\n            if oid > self._oid:\n                self.set_max_oid(oid)\n            old = self._index_get(oid, 0)\n            committed_tid = None",
+     "        with self._lock:\n            old = self._index_get(oid, 0)\n            committed_tid = None"),
+    ('C20', 'restore-does-not-raise-counter', FS,
+     "        with self._lock:\n            if oid > self._oid:\n                self.set_max_oid(oid)\n            prev_pos = 0",
+     "        with self._lock:\n            prev_pos = 0"),
+    ('C20', 'reopen-forgets-max-oid', FS,
+     "    try:\n        maxoid = index.maxKey()\n    except ValueError:",
+     "    try:\n        maxoid = z64\n    except ValueError:"),
+    ('C20', 'demo-ignores-base', DS,
+     "                        try:\n                            load_current(self.base, oid)\n                        except ZODB.POSException.POSKeyError:\n                            self._next_oid += 1",
+     "                        try:\n                            raise ZODB.POSException.POSKeyError(oid)\n                        except ZODB.POSException.POSKeyError:\n                            self._next_oid += 1"),
+    ('C20', 'demo-ignores-issued', DS,
+     "                if oid not in self._issued_oids:\n                    try:\n                        load_current(self.changes, oid)",
+     "                if True:\n                    try:\n                        load_current(self.changes, oid)"),
+    ('C20', 'mapping-new-oid-without-lock', MS,
+     "    @ZODB.utils.locked(opened)\n    def new_oid(self):",
+     "    def new_oid(self):"),
 ]
 
 
